@@ -3,6 +3,7 @@
 One Writer per direction; state (sequence number, CBC residue, RC4 stream)
 lives here so that histories of records are encrypted as a real endpoint would.
 """
+import zlib
 import hashlib
 import hmac as _hmac
 import os
@@ -30,6 +31,7 @@ class Writer:
         """version 0x0300..0x0304; p = suites.parse_name(); iv = implicit IV / salt / 1.3 iv"""
         self.v, self.p, self.key, self.iv, self.mac_key, self.rng, self.etm = version, p, key, iv, mac_key, rng, etm
         self.seq = 0
+        self.deflate = None       # TLS <= 1.2 with compression method 1 (RFC 3749): a zlib.compressobj() for this direction, one DEFLATE stream over all protected records
         if p["cipher"] == "RC4":
             self.rc4 = Cipher(ARC4(key), mode=None).encryptor()
         self.residue = iv  # SSL3/TLS1.0 CBC
@@ -68,6 +70,8 @@ class Writer:
             frag = self._aead().encrypt(nonce, inner, hdr)
             self.seq += 1
             return hdr + frag
+        if self.deflate is not None:
+            data = self.deflate.compress(data) + self.deflate.flush(zlib.Z_SYNC_FLUSH)       # TLSCompressed.fragment: MAC and encryption work on this
         if p["aead"]:
             aad = self.seq.to_bytes(8, "big") + bytes([ctype]) + wire_ver + len(data).to_bytes(2, "big")
             if p["mode"] == "CHACHA":
